@@ -1207,6 +1207,135 @@ def run_fcases(ctx):
 
 # ---------------------------------------------------------------------------------------------
 
+# ---------------------------------------------------------------------------------------------
+# one FourierFilter object, a history of calls with different dtypes and tensor shapes: the bookkeeping of
+# `_compute_functions` (cached transfer function per dtype, scratch array per dtype / tensor shape) against the model's
+# state machine (`callStep`, driver op `dtypes`), and history-independence of the results (fresh-object oracle)
+
+DSHAPES = [(), (), (2,), (2, 2), (3,)]
+
+
+def _shape_code(ts):
+    return 0 if len(ts) == 0 else (ts[0] if len(ts) == 1 else ts[0] * 10 + ts[1])
+
+
+def gen_dsession(rng):
+    nx, ny = [(4, 3), (3, 3), (2, 5), (4, 4), (5, 2)][int(rng.integers(0, 5))]
+    q = [1.0, 2.0, 1.5, [1.0, 2.0], [2.0, 1.0]][int(rng.integers(0, 5))]
+    calls = [{'dt': ['c64', 'c128'][int(rng.integers(0, 2))], 'ts': list(DSHAPES[int(rng.integers(0, len(DSHAPES)))]),
+              'back': bool(rng.integers(0, 2)), 'salt': int(rng.integers(0, 1000))} for _ in range(int(rng.integers(3, 8)))]
+    return {'dims': [nx, ny], 'delta': [0.25, 0.25], 'q': q, 'tfkind': ['generator', 'field'][int(rng.integers(0, 2))],
+            'fseed': int(rng.integers(0, 2 ** 31)), 'calls': calls}
+
+
+def directed_dsessions():
+    mk = lambda q, t, seq: {'dims': [4, 3], 'delta': [0.25, 0.25], 'q': q, 'tfkind': t, 'fseed': 5,
+                            'calls': [{'dt': d, 'ts': list(ts), 'back': b, 'salt': i} for i, (d, ts, b) in enumerate(seq)]}
+    return [mk(2.0, 'generator', [('c64', (), False), ('c128', (), False), ('c128', (), True)]),
+            mk(1.0, 'field', [('c64', (), False), ('c128', (), False), ('c64', (2,), True), ('c128', (2,), False)]),
+            mk([1.0, 2.0], 'generator', [('c128', (2, 2), False), ('c128', (), False), ('c128', (2,), True), ('c64', (2,), False), ('c128', (3,), False)]),
+            mk(1.5, 'field', [('c128', (2,), False), ('c128', (2,), True), ('c128', (3,), False), ('c64', (3,), False), ('c64', (), False), ('c128', (), True)])]
+
+
+def _dsession_filter(ds):
+    import hcipy
+    grid = hcipy.make_pupil_grid(ds['dims'], [ds['dims'][0] * ds['delta'][0], ds['dims'][1] * ds['delta'][1]])
+    rng = np.random.default_rng(ds['fseed'])
+    store = {}
+
+    def tfgen(g):
+        if g.size not in store:
+            r = np.random.default_rng(ds['fseed'] + 1)
+            # a transfer function that is NOT exactly representable in single precision (so that a re-cast is visible)
+            store[g.size] = (r.standard_normal(g.size) + 1j * r.standard_normal(g.size)) / 3
+        return hcipy.Field(store[g.size].copy(), g)
+    q = ds['q']
+    if ds['tfkind'] == 'generator':
+        return grid, (lambda: hcipy.FourierFilter(grid, tfgen, q if not isinstance(q, list) else np.array(q)))
+    probe = hcipy.FourierFilter(grid, tfgen, q if not isinstance(q, list) else np.array(q))
+    tff = tfgen(probe.internal_grid)
+    return grid, (lambda: hcipy.FourierFilter(grid, tff, q if not isinstance(q, list) else np.array(q)))
+
+
+def oracle_dsession(ds, observe=None):
+    import hcipy
+    bad = []
+    try:
+        grid, mk = _dsession_filter(ds)
+        ff = mk()
+    except Exception as e:
+        return [('filter-session raises %s' % type(e).__name__, 'building the FourierFilter raised %s: %s' % (type(e).__name__, e))]
+    hist = ''
+    trace = []
+    prev_tf, prev_arr = None, None
+    for c in ds['calls']:
+        dtype = np.complex64 if c['dt'] == 'c64' else np.complex128
+        tol = TOL64 if c['dt'] == 'c64' else TOL
+        r = np.random.default_rng([ds['fseed'], c['salt']])
+        shape = tuple(c['ts']) + (grid.size,)
+        x = hcipy.Field((r.integers(-8, 9, size=shape) / 4.0 + 1j * r.integers(-8, 9, size=shape) / 4.0).astype(dtype), grid)
+        method = 'backward' if c['back'] else 'forward'
+        tag = '%s %s%s' % (method, c['dt'], list(c['ts']))
+        try:
+            got = np.asarray(getattr(ff, method)(x.copy()))
+            fresh = mk()
+            want = np.asarray(getattr(fresh, method)(x.copy()))
+        except Exception as e:
+            bad.append(('filter-session raises %s' % type(e).__name__, '%s raised %s: %s (history %s)' % (tag, type(e).__name__, e, hist)))
+            break
+        if got.shape != want.shape or got.dtype != want.dtype or not np.abs(got - want).max() <= tol * max(1.0, float(np.abs(want).max())):
+            bad.append(('filter-reuse dtype-history %s' % c['dt'], '%s on a reused FourierFilter (history %s) differs from a fresh filter: shape %s/%s dtype %s/%s dev %.3g'
+                        % (tag, hist, got.shape, want.shape, got.dtype, want.dtype, float(np.abs(got - want).max()) if got.shape == want.shape else float('nan'))))
+        # the transfer function in use is bit for bit the one a fresh object computes for this dtype (never a re-cast copy)
+        try:
+            a, b = ff._transfer_function, fresh._transfer_function
+            if a.dtype != b.dtype or a.shape != b.shape or not np.array_equal(a, b):
+                bad.append(('filter-transfer-function dtype-history %s' % c['dt'], 'after %s (history %s) the cached transfer function (dtype %s) is not the one a fresh filter computes (dtype %s): max dev %.3g'
+                            % (tag, hist, a.dtype, b.dtype, float(np.abs(a - b).max()) if a.shape == b.shape else float('nan'))))
+            arr = ff.internal_array
+            trace.append({'tf_re': a is not prev_tf, 'arr_re': arr is not prev_arr, 'tf_dt': str(a.dtype), 'arr_dt': str(arr.dtype),
+                          'arr_ts': list(arr.shape[:arr.ndim - grid.ndim])})
+            prev_tf, prev_arr = a, arr
+        except Exception as e:
+            trace.append({'error': '%s: %s' % (type(e).__name__, e)})
+        hist += '>' + tag
+    if observe is not None:
+        observe['trace'] = trace
+    return bad
+
+
+def run_dsessions(ctx):
+    n = ctx.scale(60, 800)
+    dss = directed_dsessions() + [gen_dsession(ctx.rng) for _ in range(n)]
+    lines, kept = [], []
+    for ds in dss:
+        obs = {}
+        for key, what in oracle_dsession(ds, observe=obs):
+            ctx.violation(key, what, {'dsession': ds})
+        dts = [c['dt'] for c in ds['calls']]
+        ctx.count('filter-session: dtype changes=%d' % sum(1 for a, b in zip(dts, dts[1:]) if a != b))
+        ctx.count('filter-session: tensor-shape changes=%d' % sum(1 for a, b in zip(ds['calls'], ds['calls'][1:]) if a['ts'] != b['ts']))
+        ctx.count('filter-session: c64 before c128' if any(a == 'c64' and 'c128' in dts[i + 1:] for i, a in enumerate(dts)) else 'filter-session: other order')
+        ctx.case(None, nontrivial_key=('dsession', tuple((c['dt'], tuple(c['ts'])) for c in ds['calls'])))
+        lines.append('C04 dtypes [%s] [%s]' % (','.join('0' if c['dt'] == 'c64' else '1' for c in ds['calls']),
+                                               ','.join(str(_shape_code(c['ts'])) for c in ds['calls'])))
+        kept.append((ds, obs))
+    answers = ctx.model(lines)
+    for (ds, obs), ans in zip(kept, answers):
+        ctx.traces_validated += 1
+        want = []
+        if ans.startswith('ok '):
+            for part in ans[3:].split(';'):
+                t, a, d, e, sc = part.split(' ')
+                sc = int(sc)
+                want.append({'tf_re': t == '1', 'arr_re': a == '1', 'tf_dt': 'complex64' if d == '0' else 'complex128',
+                             'arr_dt': 'complex64' if e == '0' else 'complex128', 'arr_ts': [] if sc == 0 else ([sc] if sc < 10 else [sc // 10, sc % 10])})
+        got = obs.get('trace', [])
+        if got != want[:len(got)] or (len(got) != len(want) and not any('error' in g for g in got) and len(got) != len(want)):
+            k = next((i for i, (g, w) in enumerate(zip(got, want)) if g != w), min(len(got), len(want)))
+            ctx.disagree('C04 dtype bookkeeping', {'dsession': ds, 'call': k, 'impl': got[k] if k < len(got) else None, 'model': want[k] if k < len(want) else ans})
+
+
 def run(ctx):
     ctx.rule = ('Fresh FresnelPropagator / AngularSpectrumPropagator per case on regular grids 2..16 per axis (thorough ..24; odd, even, '
                 'non-square, off-centre), pixel/lambda in {1/4 .. 8}, unequal pixel sizes, refractive index {1, 1.25, 1.5, 2}, z of either '
@@ -1292,6 +1421,7 @@ def run(ctx):
             compare_model(ctx, cur, obs, pix, s_answers[a + nh - 1:a + k])
         run_mcases(ctx)
         run_fcases(ctx)
+        run_dsessions(ctx)
     if ctx.boundary_skipped > 0.10 * max(1, ctx.evaluations):
         raise MachineryError('too many boundary-skipped cases (%d of %d)' % (ctx.boundary_skipped, ctx.evaluations))
 
@@ -1299,7 +1429,7 @@ def run(ctx):
 def replay(ctx, case):
     with warnings.catch_warnings():
         warnings.simplefilter('ignore')
-        bad = oracle_session(case['session']) if 'session' in case else (oracle_mcase(case['mcase']) if 'mcase' in case else (oracle_fcase(case['fcase']) if 'fcase' in case else oracle_case(case)))
+        bad = oracle_session(case['session']) if 'session' in case else oracle_dsession(case['dsession']) if 'dsession' in case else (oracle_mcase(case['mcase']) if 'mcase' in case else (oracle_fcase(case['fcase']) if 'fcase' in case else oracle_case(case)))
     for key, what in bad:
         print('  fails:', key, '-', what)
     return not bad
